@@ -267,6 +267,32 @@ func (c *Comparer) field(v reflect.Value, n *Node, fi int, f Field, path string)
 		if fv.Bool() != b {
 			c.add(fp, "value", "%v, want %v", fv.Bool(), b)
 		}
+	case FPars, FParsV, FParss:
+		var want []string
+		for _, e := range evs {
+			want = append(want, e.Vals...)
+		}
+		var got []string
+		switch f.Kind {
+		case FPars:
+			if !fv.IsNil() {
+				got = []string{fv.Elem().Field(0).String()}
+			}
+		case FParsV:
+			if len(want) > 0 || fv.Field(0).String() != "" {
+				got = []string{fv.Field(0).String()}
+			}
+		default:
+			for i := 0; i < fv.Len(); i++ {
+				got = append(got, fv.Index(i).Field(0).String())
+			}
+		}
+		if f.Kind != FParss && len(want) > 1 {
+			want = want[len(want)-1:]
+		}
+		if strings.Join(got, "\x00") != strings.Join(want, "\x00") || len(got) != len(want) {
+			c.add(fp, "value", "user-implemented production(s) hold %q, want %q", got, want)
+		}
 	case FInt, FInt8, FInts:
 		var want []int64
 		for _, e := range evs {
@@ -414,6 +440,39 @@ func (c *Comparer) Leaks(v reflect.Value, n *Node, uni int, path string) {
 			}
 			if fv.Bool() && !b {
 				c.add(fp, "leak", "true although no accepted capture carried a value")
+			}
+		case FPars, FParsV, FParss:
+			var vals []string
+			for _, e := range evs {
+				vals = append(vals, e.Vals...)
+			}
+			var got []string
+			switch f.Kind {
+			case FPars:
+				if !fv.IsNil() {
+					got = []string{fv.Elem().Field(0).String()}
+				}
+			case FParsV:
+				got = []string{fv.Field(0).String()}
+			default:
+				for i := 0; i < fv.Len(); i++ {
+					got = append(got, fv.Index(i).Field(0).String())
+				}
+			}
+			if f.Kind == FParss {
+				if !subseq(got, vals) {
+					c.add(fp, "leak", "%q contains user-implemented productions that are not on the accepted path %q", got, vals)
+				}
+			} else if len(got) == 1 {
+				ok := got[0] == ""
+				for _, v := range vals {
+					if v == got[0] {
+						ok = true
+					}
+				}
+				if !ok {
+					c.add(fp, "leak", "%q does not stem from an accepted capture %q", got[0], vals)
+				}
 			}
 		case FInt, FInt8, FInts:
 			var allowed []int64
